@@ -27,8 +27,49 @@ def run_patch(patch, pid, tier="quick", seed="0"):
         shutil.rmtree(scratch, ignore_errors=True)
 
 
+def run_seeded(names, tier, verbose):
+    """seeded/<ID>-<slug>/patch.diff: apply to a scratch copy of /repo's current tree, run the check(s), record in meta.json."""
+    import json
+
+    root = os.path.join(VERIF, "seeded")
+    bad = 0
+    for name in sorted(os.listdir(root)):
+        d = os.path.join(root, name)
+        if not os.path.isdir(d) or (names and not any(n in name for n in names)):
+            continue
+        meta = json.load(open(os.path.join(d, "meta.json")))
+        props = [meta["property"]] + [x for x in meta.get("also_run", [])]
+        manifest = json.load(open(os.path.join(VERIF, "MANIFEST.json")))
+        claimed = {c["property_id"] for c in manifest["checks"]}
+        results = {}
+        for pid in props:
+            if pid not in claimed:
+                results[pid] = "no-check-yet"
+                continue
+            patch = os.path.join(d, "patch.current.diff")  # same change re-based when a later fix: commit touched its context
+            if not os.path.exists(patch):
+                patch = os.path.join(d, "patch.diff")
+            status, out = run_patch(patch, pid, tier)
+            results[pid] = status
+            if verbose or not status.startswith("caught"):
+                print("   " + out.replace("\n", "\n   ")[-900:])
+        meta["detected_by"] = {"tier": tier, "results": results}
+        json.dump(meta, open(os.path.join(d, "meta.json"), "w"), indent=1)
+        ok = any(v == "caught" for v in results.values())
+        print(f"seeded {name}: {results}")
+        if not ok:
+            bad += 1
+    return bad
+
+
 def main():
     args = sys.argv[1:]
+    if "--seeded" in args:
+        args.remove("--seeded")
+        tier = "thorough" if "--thorough" in args else "quick"
+        verbose = "-v" in args
+        names = [a for a in args if not a.startswith("-")]
+        sys.exit(1 if run_seeded(names, tier, verbose) else 0)
     tier = "quick"
     if "--thorough" in args:
         tier = "thorough"
